@@ -32,16 +32,23 @@ def check(ctx):
             ctx.require(not low, "R-TABLE", "canon-merge:mono:%s/%s" % (a, b), "canon merge(%s,%s) keeps %s" % (a, b, ret),
                         "merge_canon_results(prev=%s, current=%s) returns the %s operand: an executed canon is replaced by a pending request" % (a, b, who))
     ctx.floor("R-TABLE", "canon merge cells", len(cells), 4)
-    # prepare_both_canon_result returns merge result
-    pb = F.fn("canon_merger::prepare_both_canon_result")
-    e = Prov(pb).local(0)
-    ctx.require(lib.mentions_call(e, "merge_canon_results") and lib.mentions_call(e, "prepare_single_canon_result"), "R-FLOW", "canon-merge:both-uses-merge",
-                "both-sided canon = prepare_single(merge_canon_results(prev,cur)?)", "prepare_both_canon_result returns `%s`" % show(e)[:200])
-    ps = F.fn("canon_merger::prepare_single_canon_result")
-    e = Prov(ps).local(0)
-    ok = e[0] == "agg" and e[2] == "Ok" and e[3]["0"][0] == "agg" and e[3]["0"][2] == "CanonResult" and e[3]["0"][3]["0"][0] == "param"
-    ctx.require(ok, "R-FLOW", "canon-merge:single-identity", "prepare_single_canon_result wraps its argument unchanged",
-                "prepare_single_canon_result returns `%s`" % show(e))
+    # two canon states -> the merged state is what merge_canon_results(prev, current) returns, wrapped unchanged
+    # (bounded inlining: holds whether the wrapping / merging sits in helpers or in the match arm itself)
+    tm = F.fn("canon_merger::try_merge_next_state_as_canon", crate="air_trace_handler")
+    e = Prov(tm, F=F, inline=2).local(0)
+    good = False
+    for s_ in walk(e):
+        if s_[0] == "agg" and s_[2] == "CanonResult" and s_[1].endswith("MergerCanonResult") and "0" in s_[3]:
+            for m in walk(s_[3]["0"]):
+                if m[0] == "call" and m[1].endswith("merge_canon_results") and len(m[2]) == 2 and \
+                        lib.mentions_call(m[2][0], "prev_slider_mut") and not lib.mentions_call(m[2][0], "current_slider_mut") and \
+                        lib.mentions_call(m[2][1], "current_slider_mut") and not lib.mentions_call(m[2][1], "prev_slider_mut"):
+                    good = True
+    ctx.require(good, "R-FLOW", "canon-merge:both-uses-merge", "both-sided canon = CanonResult(merge_canon_results(prev state, current state)?)",
+                "try_merge_next_state_as_canon no longer returns CanonResult(merge_canon_results(<previous state>, <current state>)?) for two canon states: `%s`" % show(e)[:240])
+    singles = [s_ for s_ in walk(e) if s_[0] == "agg" and s_[2] == "CanonResult" and s_[1].endswith("MergerCanonResult")]
+    ctx.require(len(singles) >= 1, "R-FLOW", "canon-merge:single-identity", "a met canon state is wrapped unchanged into MergerCanonResult::CanonResult",
+                "try_merge_next_state_as_canon no longer wraps the met state into MergerCanonResult::CanonResult")
 
     # five mergers: one-sided + lock-step
     for name in mergetab.MERGERS:
